@@ -1,10 +1,12 @@
 (* C15 - Lifespan trimming keeps exactly the window (clause 1).
    Clause 2 (readings on the retained candles are unchanged while the look-back is
-   retained) is decided by the correspondence and the falsifier over the indicator engine;
-   see the level note of the check. *)
+   retained): proved at the level of one reading for ten indicator classes without helper
+   series - the value computed at an index is the same with or without the trimmed prefix as
+   long as lookback(class) candles before the index are retained; for the other classes it
+   is decided by the correspondence and the falsifier over the indicator engine. *)
 From Coq Require Import ZArith List Bool Lia.
-From Hexital Require Import Base.Prelude Base.Num Model.Manager Model.Candle
-  Proofs.CollapseProofs Proofs.FillProofs.
+From Hexital Require Import Base.Prelude Base.Num Model.Manager Model.Candle Model.Readings Model.Engine
+  Proofs.CollapseProofs Proofs.FillProofs Proofs.CausalProofs Proofs.TrimProofs.
 Import ListNotations.
 Local Open Scope Z_scope.
 
@@ -59,3 +61,15 @@ Example C15_example :
   trim Z (Some 100) [Build_cd 0 1; Build_cd 60 2; Build_cd 120 3; Build_cd 180 4]
   = [Build_cd 120 3; Build_cd 180 4].
 Proof. reflexivity. Qed.
+
+(* clause 2, one reading: [pre] are the candles the trim removed, [suf] the retained ones.
+   lookback: SMA, ROC: period; EMA, RMA, WMA, VWMA: period - 1; TR, OBV, Counter: 1; HLA: 0
+   (periods >= 2).  The value (or exception) at index i of the untrimmed list is the value
+   at index i - |pre| of the retained list. *)
+Theorem C15_reading_unchanged_by_trim_leaf :
+  forall (O : NumOps) (I : ind O) (pre suf : store O) (i W : Z),
+  lookback O (i_kind O I) = Some W -> period_ok O (i_kind O I) ->
+  zlen pre + W <= i < zlen (pre ++ suf) ->
+  pure_calc O I (pre ++ suf) i = pure_calc O I suf (i - zlen pre).
+Proof. exact trim_invariant. Qed.
+Print Assumptions C15_reading_unchanged_by_trim_leaf.
